@@ -235,7 +235,10 @@ class Exec:
             return st, None
         if z3.is_false(c):
             return None, st
-        nc = z3.simplify(z3.Not(c))
+        # assume the condition as written (the simplifier rewrites Nth into its internal
+        # total/partial forms, which only adds noise for the solver)
+        c = cond
+        nc = z3.Not(cond)
         t_ok = self.eng.quick_sat(st.path + [c])
         f_ok = self.eng.quick_sat(st.path + [nc])
         st_t = st_f = None
@@ -285,6 +288,10 @@ class Exec:
             return z3.If(v.t, z3.IntVal(1), z3.IntVal(0))
         if v.ty == "py":
             return Py.i(v.t)
+        if self.total and isinstance(v, V):
+            # dead branch of a total evaluation: unspecified integer
+            self.partial_touched = True
+            return Py.i(box(v))
         raise Unsupported(f"int expected, got {v.ty}")
 
     # ------------------------------------------------------------ expressions
@@ -547,6 +554,16 @@ class Exec:
 
     def binop(self, st, op, a, b, node=None):
         from . import arith
+        if self.total and isinstance(a, V) and isinstance(b, V):
+            # in a total evaluation an ill-kinded operation can only sit in a dead branch:
+            # it denotes an unspecified value (never constrains anything)
+            try:
+                res = list(arith.binop(self, st, op, a, b, node))
+            except Unsupported:
+                self.partial_touched = True
+                res = [(st, V("py", self.eng.opaque_fn("junk_binop_" + type(op).__name__, box(a), box(b))))]
+            yield from res
+            return
         yield from arith.binop(self, st, op, a, b, node)
 
     def e_Compare(self, st, e):
